@@ -343,6 +343,10 @@ DEC_ANY_WALKS = dict(DEC_ANY, name='anyhistorywalks', simulate={'quick': (16, 30
                      cfg={'quick': 'MC_DecAny_walks.cfg', 'thorough': 'MC_DecAny_walks.cfg'})
 DEC_LINK_WALKS = dict(DEC_FAULTS, name='faultwalks', simulate={'quick': (32, 30), 'thorough': (320, 40)},
                       cfg={'quick': 'MC_Link_walks.cfg', 'thorough': 'MC_Link_walks.cfg'})
+DEC_APALACHE = {'kind': 'proof', 'name': 'pending-bound-inductive', 'script': 'apalache/run.sh', 'obligations': 2,
+                'statement': 'ApaPending.tla: IndInv (state only for open runs; bytes held <= segment bytes received) is inductive: '
+                             'Init => IndInv and IndInv /\\ Next => IndInv\', for histories of any length and segments of any size '
+                             '(record-level abstraction of spec/Decoder.tla + the ghost of spec/DecProps.tla)'}
 DEC_STREAMS = {'kind': 'gen', 'name': 'streams', 'gen': dec_streams, 'comp': 'dec', 'trace': 'TraceDec'}
 DEC_RFAULTS = {'kind': 'gen', 'name': 'randomfaults', 'gen': dec_faults, 'comp': 'dec', 'trace': 'TraceDec'}
 DEC_RANY = {'kind': 'gen', 'name': 'randomhistory', 'gen': dec_anyhist, 'comp': 'dec', 'trace': 'TraceDec'}
@@ -389,7 +393,7 @@ PROPS = {
                     'endpoint) and Recovery (a last segment extending a clean run delivers). Non-trivial = distinct faulted '
                     'operations (tree stage) / distinct episodes containing at least one fault (random stage).',
             'assumptions': COMMON_ASSUMPTIONS},
-    'C17': {'level': 'model_checking', 'stages': [DEC_ANY, DEC_ANY_WALKS, DEC_RANY], 'nontrivial_case': nt_dec_segmented, 'nontrivial_op': ntop_segment,
+    'C17': {'level': 'model_checking', 'stages': [DEC_APALACHE, DEC_ANY, DEC_ANY_WALKS, DEC_RANY], 'nontrivial_case': nt_dec_segmented, 'nontrivial_op': ntop_segment,
             'rule': 'MC_DecAny: every history up to MaxFrames buffers over an alphabet of well-formed, orphan, out-of-order, '
                     'changed-version/type, trailing-byte, multi-message, invalid, truncated, header-only, undersized and '
                     'TECMP-routed buffers on NEndpoints endpoints, counters crossing the wrap; tree replay on the real decoder; '
